@@ -40,6 +40,7 @@ type WeatherDataShared struct {
 	CO2KONZ  []float64      // CO2 concentration 						ppm
 
 	MaxYearDays []int // days in each year (365 or 366)
+	firstDay    int   // day of the year of the first record of the first year (multi-year layouts); earlier days hold no data
 	// flags for optional parameters (if true the corresponting arrays contain valid values)
 	hasWINDHI   bool
 	hasALTITUDE bool
@@ -418,6 +419,7 @@ func ReadWeatherCSV(VWDAT string, startyear int, g *GlobalVarsMain, s *WeatherDa
 			first = false
 			T = d.datetime.YearDay()
 			yrz = 1
+			s.firstDay = T
 		} else if d.datetime.Day() == 1 && d.datetime.Month() == time.January {
 			T = 1
 			yrz = yrz + 1
@@ -559,6 +561,7 @@ func ReadWeatherCZ(VWDAT string, startyear int, g *GlobalVarsMain, s *WeatherDat
 			first = false
 			T = d.datetime.YearDay()
 			yrz = 1
+			s.firstDay = T
 		} else if d.datetime.Day() == 1 && d.datetime.Month() == time.January {
 			T = 1
 			yrz = yrz + 1
